@@ -35,7 +35,8 @@ MANIFEST = {
                      "bounded queue; 2 deliver x 2 receive ops, close, cancels, every interleaving). The close matrix (b in {0,1,4} calls blocked in "
                      "Receive/ServeAsk with non-expiring contexts; k in {0,1,W,2W} deliveries in flight with W = the stack's worker count (GOMAXPROCS forced to 2, "
                      "and the default in the thorough tier); Close before rendezvous / in the callback / after / after cancels; repeated Close; calls "
-                     "and a Tell after Close returned; goroutine-release check) is run on memswarm, fragswarm, mbapp, p2pmux, multiswarm, p2pkeswarm, "
+                     "and a Tell after Close returned; goroutine-release check; on the wrapping stacks also with an inner swarm whose Close reports an error, "
+                     "multiswarm with 3 transports and every subset failing: InnerClosed = every owned inner swarm was closed) is run on memswarm, fragswarm, mbapp, p2pmux, multiswarm, p2pkeswarm, "
                      "quicswarm, sshswarm, udpswarm from TLC-generated scripts, plus seeded close races on the exported hubs; every recorded history is "
                      "decided by TLC against the history specification. A VIOLATION is printed only for an operator falsified by a real event.",
                 note="Bounded: 2+2 ops in the exhaustive model (3 deliver ops / 2 closes in the thorough tier); promptness is observed with a 1 s "
@@ -60,7 +61,7 @@ MANIFEST = {
                 ref="5 (C13), 3.1, Appendix B"),
 }
 
-C12_OPS = {"CloseEnds", "ErrAfterClose", "NoLateCallback", "CloseIdempotent", "CloseReturns", "AllReleased"}
+C12_OPS = {"CloseEnds", "ErrAfterClose", "NoLateCallback", "CloseIdempotent", "CloseReturns", "AllReleased", "InnerClosed"}
 C13_OPS = {"ExactlyOnce", "OkOnlyAfterCallback", "ErrOnlyIfUnseen", "NotLostByCancel", "RetTruthful", "CancelPrompt",
            "NoStaleContent", "OnlyDelivered", "QueueBounded"}
 TIMING_OPS = {"CloseEnds", "CloseReturns", "CloseIdempotent", "CancelPrompt", "AllReleased"}
@@ -68,6 +69,9 @@ TIMING_OPS = {"CloseEnds", "CloseReturns", "CloseIdempotent", "CancelPrompt", "A
 KIND_NAME = {"recv": "Receive", "serve": "ServeAsk", "deliver": "Deliver", "qdeliver": "Deliver", "tell": "Tell", "ask": "Ask",
              "close": "Close", "close2": "Close-repeated", "purge": "Purge", "process": "process", "": "-"}
 STACKS = ["memswarm", "fragswarm", "mbapp", "p2pmux", "multiswarm", "p2pkeswarm", "quicswarm", "sshswarm", "udpswarm"]
+# wrapping stacks that own their inner swarm, run with an inner swarm whose Close reports an error (after really closing);
+# multiswarm3: three transports, every non-empty subset of them failing (Go randomises the map order Close iterates in)
+VARIANT_STACKS = ["fragswarm+innererr", "mbapp+innererr", "p2pkeswarm+innererr", "quicswarm+innererr", "multiswarm3+innererr"]
 HUBS = ["tell", "ask"]
 BS = [0, 1, 4]
 PHASES = ["idle", "pre", "cb", "post", "cancel"]
@@ -184,6 +188,15 @@ def generate_scripts(tier, stats):
                     # concretisation choice of the stack level: the handler answers its sender
                     scripts.append(dict(id=len(scripts), hub=hub, b=b, ph=ph, k=k, w=MODEL_W, procs=0, reply=True, steps=steps))
         stats["gen"][hub] = dict(behaviours=len(behs), classes=len(classes), distinct=len({canon(b[2]) for b in behs}))
+    # the subset also run on the "+innererr" variants: blocked receivers, Close in the callback / after a delivery, a backlog
+    seen = set()
+    for sc in scripts:
+        c = (sc["hub"], sc["b"], sc["ph"], sc["k"])
+        want = ((sc["ph"] in ("idle", "cb", "post") and sc["b"] in (1, 4) and not sc["reply"])
+                or (sc["ph"] == "backlog" and sc["b"] == 0 and sc["k"] == MODEL_W and sc["procs"] == 2))
+        sc["inner"] = bool(want and c not in seen)
+        if sc["inner"]:
+            seen.add(c)
     return scripts, behaviours
 
 
@@ -305,6 +318,9 @@ def classify(name, e, w):
     pid = "C12" if op in C12_OPS else "C13" if op in C13_OPS else None
     if pid is None:
         return None
+    if op == "InnerClosed":
+        return pid, "%s:InnerClosed:%s/%s" % (pid, comp, e["fn"]), (
+            "Close of the %s stack returned but its inner swarm %s was never closed (%s)" % (comp, e["fn"], e["info"]))
     if op == "AllReleased":
         return pid, "%s:AllReleased:%s/%s" % (pid, comp, e["fn"]), (
             "%d goroutine(s) in %s still alive after Close of the %s stack and the grace period (%s)" % (e["n"], e["fn"], comp, e["info"]))
@@ -460,7 +476,7 @@ def run_pipeline(pid, tier, replay=None):
             # cancellation promptness on every stack; the full matrix belongs to C12
             scripts = [s for s in scripts if s["ph"] == "cancel"]
             race = (generate_race_scripts(tier, stats), RACE_STACKS, T["race_rounds"])
-        stacks = STACKS
+        stacks = STACKS + (VARIANT_STACKS if pid == "C12" else [])
         stress_windows = T["stress"][pid]
         model_events, expect, n_ok, n_bad = selftest_model_histories(behaviours, tier)
         stats["model_histories"] = n_ok
@@ -612,7 +628,7 @@ def check(pid, tier, replay=None):
              "swarm stack each) recorded from the real code; distinct_nontrivial = distinct (event, kind, result) sequences among the windows "
              "that contain a callback, a cancel, a timeout or a Close",
         model_checking=stats["mc"], model_bug_selftest=stats["mc_bug_selftest"], script_generation=stats["gen"],
-        scripts_per_stack=stats["scripts"], stacks=STACKS, race_schedules=stats.get("race_scripts", 0), race_stacks=RACE_STACKS, model_histories_accepted=stats["model_histories"],
+        scripts_per_stack=stats["scripts"], stacks=STACKS, variant_stacks=VARIANT_STACKS, race_schedules=stats.get("race_scripts", 0), race_stacks=RACE_STACKS, model_histories_accepted=stats["model_histories"],
         corrupted_histories_rejected=stats["corrupted_rejected"], drift=stats["drift"], confirmations=stats["confirmations"],
         exhaustive=False,
         explanation="TLC exhaustively checks Hubs.tla within the bounds of the listed configs (safety + liveness under weak fairness); TLC-generated "
